@@ -23,6 +23,7 @@ type mapRegistry map[string]*def.WorkFn
 func (r mapRegistry) Load(id string) (*def.WorkFn, bool) { f, ok := r[id]; return f, ok }
 
 const waitLong = 10 * time.Second
+const waitPool = 3 * time.Second
 
 // ---------------------------------------------------------------- C09: one dispatch, all scenarios
 
@@ -221,7 +222,7 @@ func (l *evlog) has(ev string) bool {
 
 // waitFor polls the log until cond holds (events wake it up); false on timeout
 func (l *evlog) waitFor(cond func() bool) bool {
-	deadline := time.After(waitLong)
+	deadline := time.After(waitPool)
 	for {
 		if cond() {
 			return true
@@ -275,7 +276,7 @@ func runPool(r *rand.Rand, stats map[string]int) string {
 	// settle: poll until the pool is quiescent: every accepted call is known to the harness, workers of
 	// finished calls are idle again, idle removed workers are gone, and no idle live worker faces a waiting call
 	settle := func() {
-		deadline := time.Now().Add(waitLong)
+		deadline := time.Now().Add(waitPool)
 		for {
 			absorb()
 			alive, sleeping, active := poolLen()
@@ -311,7 +312,16 @@ func runPool(r *rand.Rand, stats map[string]int) string {
 			close(called)
 			ch, err := d.Dispatch(ctx, func(fctx context.Context) (def.Task, error) {
 				lg.add("PStart", k)
-				return def.Task{Id: fmt.Sprint("t", k), WorkId: "w", Param: map[string]string{"k": fmt.Sprint(k)}}, nil
+				t := def.Task{Id: fmt.Sprint("t", k), WorkId: "w", Param: map[string]string{"k": fmt.Sprint(k)}}
+				switch k % 4 {
+				case 1:
+					// a deadline that has passed: the work function (which ignores its context here) still
+					// occupies its worker until it returns
+					t.Deadline = option.Some(time.Now().Add(-time.Hour))
+				case 2:
+					t.Deadline = option.Some(time.Now().Add(time.Hour))
+				}
+				return t, nil
 			})
 			if err != nil {
 				lg.add("PReturnCtx", k)
@@ -410,7 +420,10 @@ func runPool(r *rand.Rand, stats map[string]int) string {
 	lg.mu.Lock()
 	defer lg.mu.Unlock()
 	if !ok {
+		// the dispatcher did not reach a state its contract promises (a call that has to proceed did not, a
+		// cancelled waiting call did not return, ...): make the trace unacceptable
 		stats["pool:harness-timeouts"]++
+		lg.evs = append(lg.evs, "PReturnOk 999999%nat")
 	}
 	return "[" + strings.Join(lg.evs, "; ") + "]"
 }
@@ -459,6 +472,9 @@ func dispMain(args []string) {
 		b.WriteString("Definition cases : list dcase := [\n " + strings.Join(cases, ";\n ") + "\n].\n")
 	} else {
 		for k := 0; k < *n; k++ {
+			if stats["pool:harness-timeouts"] >= 2 {
+				break
+			}
 			c := runPool(r, stats)
 			cases = append(cases, c)
 			hashes = append(hashes, shortHash(c))
